@@ -240,6 +240,20 @@ fn run_lut(c: &LutCase) -> Verdict {
     let want = (0..c.f.size()).all(|x| !m.value(x as u64) || c.f.get(x));
     let got = lib!("Cube::implies_lut", cube.implies_lut(&l));
     ensure!(got == want, "implies_lut", "({}).implies_lut({}) = {} but the cube {} an implicant", m.show(), c.f.short(), got, if want { "is" } else { "is not" });
+    // the same cube with additional NEGATIVE literals on variables the table does not have: f does
+    // not depend on them, and both readings (restrict the cube to the table's assignments, or
+    // extend f to more variables) give the same answer as for the cube itself
+    if m != CubeM::Zero {
+        for hs in [vec![n], vec![31usize], vec![n, std::cmp::min(n + 5, 31), 31]] {
+            let hs: Vec<usize> = hs.into_iter().filter(|h| *h >= n && *h < 32).collect();
+            if hs.is_empty() {
+                continue;
+            }
+            let wide = lib!("Cube &", cube & Cube::from_vars(&[], &hs));
+            let got = lib!("Cube::implies_lut", wide.implies_lut(&l));
+            ensure!(got == want, "implies_lut:extra-negative-literals", "({}).implies_lut({}) = {} although without the negative literals on the absent variables {:?} the cube {} an implicant", CubeM::of(&wide).show(), c.f.short(), got, hs, if want { "is" } else { "is not" });
+        }
+    }
     pass(m.num_lits() >= 1 && !c.f.is_const(), vec![format!("n:{}", n), format!("implicant:{}", want)])
 }
 
@@ -330,7 +344,7 @@ fn enumerate_all(t: Tier, shard: usize, nshards: usize, f: &mut dyn FnMut(AllCas
 pub fn def() -> PropDef {
     PropDef {
         id: "C12",
-        rule: "pairs: cases = (nv, a, b, assignments): cubes are *build descriptions* over variables < nv (nv in 0..=32) through every constructor — one, zero, nth_var(_inv), from_vars with repeated and overlapping lists, from_mask with disjoint and overlapping masks, minterm(n<=31, m), and chains of & in its four reference forms — whose meaning is computed by the harness's literal-set model. Checked: the literals read back through pos_vars()/neg_vars() are the model's; every contradictory result == Cube::zero(); is_zero/is_one/is_constant/num_lits/num_gates; value(m) on all assignments (nv<=5) plus generated 32-bit assignments plus constructed ones (satisfying a, b, a&b, and single-bit near misses); a == b iff same function; a & b in 4 forms; implies/intersects in both directions decided semantically — by enumeration of all assignments for nv<=5 and by the literal-set theorem with a constructed witness assignment checked through value() otherwise. Non-trivial = both cubes have >= 2 literals and share a variable. Exhaustive: all (3^n+1)^2 ordered pairs for n<=4 (quick) / n<=5 (thorough). implies_lut: all cubes x all functions n<=3 (quick) / n<=4 (thorough) plus generated up to n=8, against the definition. all: Cube::all(n) yields exactly 3^n distinct non-contradictory cubes over variables < n for n<=8 (9 thorough), the same items through count/last/fold/nth/skip (also beyond the end), and minterm(n,m) is true exactly at m (n<=6, all m).",
+        rule: "pairs: cases = (nv, a, b, assignments): cubes are *build descriptions* over variables < nv (nv in 0..=32) through every constructor — one, zero, nth_var(_inv), from_vars with repeated and overlapping lists, from_mask with disjoint and overlapping masks, minterm(n<=31, m), and chains of & in its four reference forms — whose meaning is computed by the harness's literal-set model. Checked: the literals read back through pos_vars()/neg_vars() are the model's; every contradictory result == Cube::zero(); is_zero/is_one/is_constant/num_lits/num_gates; value(m) on all assignments (nv<=5) plus generated 32-bit assignments plus constructed ones (satisfying a, b, a&b, and single-bit near misses); a == b iff same function; a & b in 4 forms; implies/intersects in both directions decided semantically — by enumeration of all assignments for nv<=5 and by the literal-set theorem with a constructed witness assignment checked through value() otherwise. Non-trivial = both cubes have >= 2 literals and share a variable. Exhaustive: all (3^n+1)^2 ordered pairs for n<=4 (quick) / n<=5 (thorough). implies_lut: all cubes x all functions n<=3 (quick) / n<=4 (thorough) plus generated up to n=8, against the definition; each cube also with extra negative literals on variables the table does not have (same answer). all: Cube::all(n) yields exactly 3^n distinct non-contradictory cubes over variables < n for n<=8 (9 thorough), the same items through count/last/fold/nth/skip (also beyond the end), and minterm(n,m) is true exactly at m (n<=6, all m).",
         assumptions: vec![
             "minterm(32, .) and nth_var(>=32) are outside the domain (u32 shift; no caller in the crate reaches them)",
             "cubes are observed through pos_vars()/neg_vars()/value()/==",
